@@ -1,14 +1,14 @@
 package main
 
 import (
-	"runtime"
-	"strings"
-	"sync/atomic"
 	"bytes"
 	gocontext "context"
 	"fmt"
 	"net"
+	"runtime"
+	"strings"
 	"sync"
+	"sync/atomic"
 	"time"
 
 	"github.com/brutella/hc/crypto"
@@ -149,7 +149,9 @@ func queuedEvents(c *Ctx, who string) {
 		responseWritten(ctx, raw)
 		peer := newRefControllerSession(shared[:])
 		writers, per := 2+r.Intn(7), 10+r.Intn(40)
-		mk := func(w, k int) []byte { return []byte(fmt.Sprintf("EVENT/1.0 200 OK\r\nX: w%02dk%03d %s\r\n\r\n", w, k, strings.Repeat("e", w*7+k%50))) }
+		mk := func(w, k int) []byte {
+			return []byte(fmt.Sprintf("EVENT/1.0 200 OK\r\nX: w%02dk%03d %s\r\n\r\n", w, k, strings.Repeat("e", w*7+k%50)))
+		}
 		var wg sync.WaitGroup
 		start := make(chan struct{})
 		var failed int64
